@@ -78,6 +78,7 @@ type Exec struct {
 	ForkSites        map[string]int
 	loopBounds       map[string]int
 	stopAfterViol    int
+	jsonDocs         map[int]*jsonDoc
 	interrupted      bool
 	PathSamples      []interface{}
 	SampleModels     [][]NondetVal
